@@ -11,6 +11,8 @@ T  stream `sc`  : the merges the real short_circuit_struct performs (observed th
                   replayed on the Lean model (AgVerif.ShortCircuit.mergeAt: the four shapes, the single-predecessor
                   test, the entry rule); the final graph (condition trees, flags, operators, true/false targets,
                   entry) must coincide.
+   stream `wr`  : (acyclic graphs) which conditions the real Writer prints, in which order and which of them negated
+                  and swapped, against the model of the visit discipline (AgVerif.WriterVisit.visitNode).
    stream `pr`  : every condition the real Writer prints (after identify_structures) against the model's
                   negate-and-swap + print (which mutates): the text and the (true,false) pair must coincide.
 S  O0 graph     : the merged graph, evaluated by a 15-line evaluator of Condition objects, reaches from the entry the
@@ -425,6 +427,13 @@ def run_writer(spec):
         elif isinstance(n, bb.LoopBlock):
             wrap(n.cond)
     pre = {}
+    wr_nodes = []
+    for n in list(g.nodes):
+        if n.type.is_cond:
+            fo = n.follow["if"]
+            wr_nodes.append("%s:%d:%s:%s:%s" % (rep(n), n.num, rep(n.true), rep(n.false), rep(fo) if fo is not None else "-"))
+        else:
+            wr_nodes.append("%s:%d" % (n.name, n.num))
     for n in list(g.nodes):
         if n.type.is_cond:
             pre[rep(n)] = (tree(n), rep(n.true), rep(n.false), type(n).__name__)
@@ -435,7 +444,7 @@ def run_writer(spec):
         w.visit_node(g.entry)
     except Exception as e:  # noqa
         return {"exc": "writer:" + type(e).__name__, "prints": prints, "pre": pre}
-    return {"prints": prints, "pre": pre, "text": str(w)}
+    return {"prints": prints, "pre": pre, "text": str(w), "wr": "wr %s %s" % (rep(g.entry), ",".join(wr_nodes))}
 
 
 # ----------------------------------------------------------------------------------------------- case checks
@@ -468,6 +477,7 @@ def check_case(ck: Check, spec, want_writer=True, o2=True):
         info["exc"] = r["exc"]
         return reqs, real, info
     seen_leaves = set()
+    order = []
     for pr in r["prints"]:
         t0 = r["pre"].get(pr["rep"])
         if t0 is None or seen_leaves & set(pr["leaves"]):
@@ -478,6 +488,7 @@ def check_case(ck: Check, spec, want_writer=True, o2=True):
         info["prints"] += 1
         info["pos_" + pr["pos"]] = info.get("pos_" + pr["pos"], 0) + 1
         swapped = (t0[1], t0[2]) == (pr["tf"][1], pr["tf"][0]) and t0[1] != t0[2]
+        order.append("%s:%d" % (pr["rep"], swapped))
         info["swapped"] += swapped
         info["sc_prints"] += t0[0].startswith("S")
         reqs.append("pr %d %s" % (swapped, t0[0]))
@@ -499,6 +510,12 @@ def check_case(ck: Check, spec, want_writer=True, o2=True):
                         "printed condition sends an input to another successor than the original chain of branches",
                         None, {"text": pr["text"], "reaches": exp}, {"value": b, "true": pr["tf"][0], "false": pr["tf"][1]})
                 break
+    if acyclic(spec) and not spec.get("stmts"):
+        # the visit discipline (which conditions are printed, in which order, which ones negated-and-swapped)
+        reqs.append(r["wr"]); real.append(" ".join(order))
+        if info.get("reprinted"):
+            ck.fail({"spec": spec, "stage": "print"}, "a condition is printed more than once on an acyclic graph",
+                    None, "each condition once", [p_["rep"] for p_ in r["prints"]])
     # O2
     if o2 and acyclic(spec) and not spec.get("stmts"):
         try:
@@ -702,8 +719,10 @@ def run(ck: Check):
     model = drv.ask(reqs)
     sc_idx = [i for i, q in enumerate(reqs) if q.startswith("sc ")]
     pr_idx = [i for i, q in enumerate(reqs) if q.startswith("pr ")]
+    wr_idx = [i for i, q in enumerate(reqs) if q.startswith("wr ")]
     ck.compare("sc", [reqs[i] for i in sc_idx], [real[i] for i in sc_idx], [model[i] for i in sc_idx])
     ck.compare("pr", [reqs[i] for i in pr_idx], [real[i] for i in pr_idx], [model[i] for i in pr_idx])
+    ck.compare("wr", [reqs[i] for i in wr_idx], [real[i] for i in wr_idx], [model[i] for i in wr_idx])
     ck.cover(evaluations=nevals, distinct=distinct, samples=samples, dist=dict(dist, **{"family_" + k: v for k, v in fam.items()}))
     ck.assumptions.append("conditions are side-effect free comparisons of distinct parameters (stub operands); "
                           "set-iteration order of MergeNodes' lpreds/ldests is not modelled (the merge trace is observed and replayed)")
